@@ -975,10 +975,37 @@ def check_path_tokens(facts, out):
                     wrote_degree = True
     out.add('KT-K5', 'encode::add_path_data', 'degree-written', 'src/encode.rs', wrote_degree,
             '' if wrote_degree else 'the B-spline degree the decoder reads is never written', ordinal=False)
-    # (c) explicit-segment decision compares whole path types
-    inits = ctx_inits.get('needs_explicit_segment', [])
+    # (c) explicit-segment decision compares whole path types.  The decision is the condition of the
+    # `if` under which the type letter is written (helpers of add_path_data are looked at in place).
+    encv = H.inlined_fn(facts, enc, depth=2)
+    v_inits = H.binding_inits(encv)
+    conds = []
+
+    def v_if(x, anc):
+        if x.get('k') != 'if':
+            return
+        has_letters = []
+
+        def v_m(y, anc2):
+            if y.get('k') == 'match' and not y.get('src', '').startswith('TryDesugar'):
+                vs = []
+                for a in y['arms']:
+                    _pat_variants(a['pat'], PT_MOD + 'SplineType', vs)
+                if vs:
+                    has_letters.append(y)
+        H.walk(x['t'], v_m)
+        if has_letters:
+            conds.append(x['c'])
+    H.walk(encv['body'], v_if)
+    inits = []
+    for c in conds:
+        c0 = H.peel(c)
+        if c0.get('k') == 'local':
+            inits.extend(v_inits.get(c0['name'], []))
+        else:
+            inits.append(c0)
     okc = False
-    why = 'no `needs_explicit_segment` decision found'
+    why = 'no condition under which the path type letter is written was found'
     for init in inits:
         cmps = []
 
